@@ -1,9 +1,9 @@
 SPECIFICATION MCSpec
 CONSTANTS
   Relax = {}
-  Mode = "honest"
-  MaxBlocks = 2
-  Layouts = {"plain"}
+  Mode = "revoked"
+  MaxBlocks = 3
+  Layouts = {"plain", "fee_after", "fee_after_change", "fee_before", "fee_between", "extra_out", "two_fees"}
   MaxUnwind = 0
   Defect = "none"
   MaxReload = 1
